@@ -8,6 +8,9 @@
 //	pipeline  (pipeline_test.go)  real SendStream(s) + real framer -> generated channel -> real
 //	          ReceiveStream(s), both endpoints with real flow controllers, window updates flowing
 //	          back through a generated reverse channel (closed loop) or generated freely (open loop).
+//	recv-enforce (recv_enforce_test.go)  real ReceiveStream(s) + real flow controllers against a generated
+//	          peer that may be non-conformant: first byte beyond an advertised limit -> FLOW_CONTROL_ERROR,
+//	          in every receive-stream state.
 package c04
 
 import (
